@@ -22,6 +22,8 @@ def s2d_trace(sc):
     for c in sc["cases"]:
         F = np.array(c["F"], float)
         M = np.array(c["M"], float) if c["masked"] else None
+        if c["masked"] and c.get("junk"):          # what a masked node holds must not matter: nan, inf, a fill value (the event keeps the integer table)
+            F = np.where(M > 0, F, {"nan": np.nan, "inf": np.inf, "fill": 1.0e37}[c["junk"]])
         kw = {}
         if c["masked"]:
             kw["mask"] = M
@@ -196,7 +198,8 @@ def s2d_scenarios(tier, rng):
         x = rng.randrange(-2, (ni - 1) * Q + 3)
         y = rng.randrange(-2, (nj - 1) * Q + 3) if rng.random() < 0.5 else rng.randrange(0, (nj - 1) * Q)
         hasout = rng.random() < 0.7
-        cases.append(dict(F=F, M=M, masked=masked, x=x, y=y, Q=Q, undef=rng.choice([0, 0, -9, 7]), pass_undef=rng.random() < 0.5,
+        cases.append(dict(F=F, M=M, masked=masked, junk=(rng.choice(["nan", "inf", "fill"]) if masked and rng.random() < 0.4 else ""),
+                          x=x, y=y, Q=Q, undef=rng.choice([0, 0, -9, 7]), pass_undef=rng.random() < 0.5,
                           hasout=hasout, outval=rng.choice([0, 0, -1, 5]) if hasout else 0))
     return [dict(cases=cases[i:i + 250], cls={}) for i in range(0, len(cases), 250)]
 
